@@ -1,22 +1,10 @@
 (** Observer-guarded statements of the simulation part (C12, C19; seed F6-J): soundness of the checker of
-    Model/Observers.v, and the tie of [pastop] to the statements of `getPastModulation()` as
-    translate/dynqueue2coq.py reads them (Model/DynQueue.v, Gen/Gen_DynQueue.v). *)
+    Model/Observers.v.  (The tie of [pastop] to the statements of `getPastModulation()` as translate/dynqueue2coq.py
+    reads them is in Proofs/ObserversDQP.v.) *)
 From Coq Require Import List ZArith String Bool.
-From Inovesa Require Import Model.Driver Model.Observers Model.DynRF Model.DynQueue.
+From Inovesa Require Import Model.Driver Model.Observers.
 Import ListNotations.
 Local Open Scope Z_scope.
-
-Definition pastop_of (o : gop) : pastop :=
-  match o with GMoveOut => PMovedFrom | GClear => PCleared | GCopyOut | GReturnRv => PKeep end.
-
-(** [past_after] is what the generated `getPastModulation()` does to the member `_past_modulation` *)
-Lemma past_after_is_gen_flush {F : Base.FieldKit.Fld} {G : Type} (junk : list (modn F)) (ops : list gop) :
-  forall (s : DynRF.st F G) rv,
-    DynRF.past (fst (fold_left (fun x o => exec_gop junk o x) ops (s, rv))) = past_after junk (List.map pastop_of ops) (DynRF.past s).
-Proof.
-  induction ops as [|o r IH]; intros s rv; cbn [fold_left List.map past_after]; auto.
-  destruct o; cbn [exec_gop pastop_of]; rewrite IH; reflexivity.
-Qed.
 
 Section OP.
   Variable K : kern.
